@@ -44,6 +44,14 @@ def within(d, c):
 # cut: "none" or a number token; ud: 1 = the caller's dictionary is passed as output_dict; obj: 0 ids, 1 the network's Node
 # objects, 2 fresh Node objects with the same ids
 # ---------------------------------------------------------------------------------------------------
+PREP_FILES = ["a", "a", "a.npy", "b", "b.npy", "npy", "npy.npy", ".npy", "t.np", "abcd", "abcd.npy"]
+
+
+def prep_path(name):
+    """the file a user means by `name`: numpy's save and load_prep both add the extension when it is missing"""
+    return name if name.endswith(".npy") else name + ".npy"
+
+
 SESS_CUTS = ["none", "none", 0, "1/2", 1, 2, 3, 5]
 SESS_W = [0, 0, 1, 1, 2, 3, "1/2", "3/2"]
 
@@ -110,6 +118,9 @@ def random_session(rng):
             ops.append(["p", cut()]); prepared = True
         elif r < 0.84 and prepared:
             ops.append(["v"])
+        elif r < 0.875 and (prepared or rng.random() < 0.15):
+            # save_prep / load_prep on named files: with and without the extension, shorter than four characters, never written
+            ops.append([rng.choice(["S", "S", "L", "L", "L"]), rng.choice(PREP_FILES)])
         elif r < 0.91 and prepared:
             ops.append([rng.choice(["q", "q", "h"]), rng.choice(nodes), rng.choice(nodes), obj()])
         else:
@@ -323,7 +334,8 @@ def json_op(op):
                         "a": "all_shortest_distances", "p": "prepare", "q": "prepared_shortest_distance",
                         "h": "has_prepared_shortest_distance", "s": "sub_network", "v": "save_prep+load_prep",
                         "c": "Network", "m": "setRoutingMethod", "w": "setAStarWeight", "x": "sub_network[kept]", "W": "edge.weight=",
-                        "g": "sub_network[GEOMETRIC,coords]", "G": "sub_network[GEOMETRIC,node]"}[op[0]], ",".join(str(x) for x in op[1:]))
+                        "g": "sub_network[GEOMETRIC,coords]", "G": "sub_network[GEOMETRIC,node]",
+                        "S": "save_prep", "L": "load_prep"}[op[0]], ",".join(str(x) for x in op[1:]))
 
 
 def dtok(x):
@@ -377,6 +389,7 @@ class SessOracle:
         self.nodes, self.edges, self.ver = [], [], 0
         self.E = {}            # expected content of the caller's dictionary: key -> (token, graph version when written)
         self.D = None          # expected DISTANCES, same form
+        self.files = {}        # path -> the expected DISTANCES at the moment save_prep wrote it (None: unknown)
         self.fw = None
         self.mode, self.wgt = 0, 1
         self.pos = pos if pos is not None else [[v, 0] for v in range(n)]
@@ -473,6 +486,24 @@ class SessOracle:
         end = pos + (1 if has_dump else 0)
         if r == "err" and k in "rdlsx" and any(v is not None and v not in nodes for v in ([op[1], op[2]] if k in "rd" else [op[1]])):
             return None, end     # a node this network does not hold (see SessRunner.call): the call was not made
+        if k == "S":
+            # save_prep(name): with no table yet the code prints an error and exits (nothing to judge); else the file holds the table
+            if r == "ok":
+                self.files[prep_path(op[1])] = None if self.D is None else dict(self.D)
+            elif self.D is not None:
+                return "%s: %s although prepare was called before" % (what, r), end
+            return None, end
+        if k == "L":
+            # load_prep(name): DISTANCES becomes the table the file was written with; what prepared_shortest_distance answers
+            # afterwards is judged against it. A file never written: the code raises, nothing to judge
+            path = prep_path(op[1])
+            if path in self.files:
+                if r != "ok":
+                    return "%s: %s although save_prep wrote that file" % (what, r), end
+                self.D = None if self.files[path] is None else dict(self.files[path])
+            elif r == "ok":
+                self.D = None
+            return None, end
         if k == "G" and r == "err":
             # sub_network(<Node or id>, cut, "GEOMETRIC") raised (AttributeError: the code asks the node's ID for `.coord`):
             # nothing was returned, nothing to judge — the statement is about reported distances (the model answers `err` too)
@@ -778,6 +809,13 @@ class SessRunner:
         self.lab = (lambda v: None if v is None else "n%d" % v) if strs else (lambda v: v)
         self.unlab = (lambda x: int(x[1:])) if strs else (lambda x: x)
 
+    def close(self):
+        """remove the directory of the files save_prep wrote"""
+        if getattr(self, "dir", None) is not None:
+            import shutil
+            shutil.rmtree(self.dir, ignore_errors=True)
+            self.dir = None
+
     def coords(self, v, dy=0):
         ENUCoords = self.mods[5]
         if self.pos is None:
@@ -850,6 +888,25 @@ class SessRunner:
             # searches on the returned network (it shares the Node objects with `net`), then `net` goes on
             probe = [[dtok(sub.shortest_distance(a, b)) for b in ids] for a in ids]
             r = ["s", [unlab(x) for x in ids], list(sub.getEdgesId()), probe]
+        elif k in ("S", "L"):
+            # save_prep / load_prep with a bare file name, in a directory of this object's own (so that `len(filename) < 4` can occur)
+            import tempfile, os
+            if getattr(self, "dir", None) is None:
+                self.dir = tempfile.mkdtemp(prefix="c06prep")
+            cwd = os.getcwd()
+            os.chdir(self.dir)
+            try:
+                if k == "S":
+                    net.save_prep(op[1])
+                else:
+                    net.load_prep(op[1])
+                r = "ok"
+            except SystemExit:
+                r = "err"       # save_prep without DISTANCES: "Error: prepare function must be called …", exit(1)
+            except FileNotFoundError:
+                r = "err"
+            finally:
+                os.chdir(cwd)
         elif k in ("g", "G"):
             # GEOMETRIC extraction (no spatial index on the network): centre = coordinates (g) or a Node object / an id (G)
             cutv = 1e300 if op[2] == "none" else nc.pynum(op[2])
@@ -907,6 +964,9 @@ class P(Prop):
         (M, "TV.C06.sub_network_geometric_edges", "sub_network(centre, cut, GEOMETRIC) (no spatial index) keeps exactly the edges with an end within the planimetric distance cut of the centre"),
         (M, "TV.C06.sub_network_geometric_distances", "on sub_network(centre, cut, GEOMETRIC): shortest_distance = minimum over the parent's walks using only edges with an end within cut of the centre; >= the parent's distance; equal iff a shortest walk of the parent uses only such edges, in particular when all its vertices are within cut"),
         (M, "TV.C06.sub_network_geometric_call", "sub_network(.., GEOMETRIC) as a call on an object of a program: coordinates -> the edges above, object left exactly as it was (no search, no flag touched); a Node object or an id as centre -> the code raises"),
+        (M, "TV.C06.load_prep_reads_what_save_prep_wrote", "for every file name load_prep reads the path numpy's save wrote (extension added by both when missing, names shorter than four characters, '.npy' itself)"),
+        (M, "TV.C06.save_load_roundtrip", "save_prep(f), then any calls (searches, further prepare, new edges, other files), then load_prep(f or f with/without .npy): DISTANCES is the table saved, prepared_shortest_distance / has_prepared_shortest_distance answer for every pair what they answered when save_prep was called"),
+        (M, "TV.C06.save_then_load_is_identity", "save_prep(f) immediately followed by load_prep(f) leaves the object as it was: the one-step model used by the world and family streams is the composition of the two calls"),
         (M, "TV.C06.search_starts_clean", "__resetFlags + source.poids = 0 yields the initial labelling whatever flags earlier calls left on the nodes"),
         (M, "TV.C06.session_invariant", "after any sequence of addNode / addEdge / searches / all_shortest_distances / prepare / sub_network calls the object satisfies the session invariant"),
         (M, "TV.C06.session_answers_pure", "in any state reached by any call sequence every call answers with the pure function of the current graph (no trace of earlier searches)"),
@@ -942,7 +1002,10 @@ class P(Prop):
     open_statements = ["float weights: the theorems need only a linear order, a + 0 = a, 0 <= w -> a <= a + w and a <= b -> a + w <= b + w (no associativity: code and Walk both add from the source outwards), "
                        "which IEEE round-to-nearest addition has on non-NaN doubles; they are stated with Mathlib's ordered-monoid classes, so the instance for IEEE doubles is not constructed in Lean "
                        "(the float stream compares with exact rational distances at 1e-9 relative)",
-                       "save_prep / load_prep are modelled as 'the dictionary read back is the dictionary written' (numpy's pickle is exercised by the sessions, not modelled); "
+                       "save_prep / load_prep: the file names (numpy's and load_prep's rules for the extension), the files as snapshots of DISTANCES, missing files and a missing table are modelled "
+                       "(Model/GraphPrepFile.lean, session stream); what numpy's pickle does to the dictionary is taken to be the identity on keys and values (exercised through real files, not modelled; "
+                       "int / float types of the values are not distinguished: tokens are compared as rationals); every object saves to a directory of its own — a file written by one Network object and "
+                       "loaded by another is not modelled; in the world and family streams only the one-step save+load is driven; "
                        "sub_network in GEOMETRIC mode is modelled for a network WITHOUT spatial index (to_run = every edge) and driven in the world streams only (the objects that have coordinates); "
                        "with a spatial index (to_run = spatial_index.neighborhood(...)) it is outside the model; in the family model (shared Node objects) every member routes with Dijkstra "
                        "(setRoutingMethod on a member of a family is not modelled: the world model has the settings, with private Node objects)",
@@ -957,6 +1020,8 @@ class P(Prop):
                 "before recording, 'other end' rule, visite guard, strict < relaxation, output_dict), shortest_distance (pair and list form, ids or Node objects, with output_dict), "
                 "all_shortest_distances (fresh or caller's dictionary), prepare, prepared_shortest_distance, has_prepared_shortest_distance, sub_network (TOPOLOGIC) — "
                 "as pure functions (Model/Graph.lean) and as a state machine over call sequences on one object (Model/GraphSession.lean); "
+                "save_prep (DISTANCES None -> exit; np.save's file-name rule) and load_prep (its two file-name ifs, np.load of a missing file, DISTANCES replaced by the table of the file) "
+                "over a file system of named snapshots (Model/GraphPrepFile.lean: saveName, loadName, execF); "
                 "sub_network(centre, cut, 'GEOMETRIC') -> __sub_network_geometric on a network without spatial index, ENUCoords.distance2DTo / norm2D, Python's min, the `> cut` test, "
                 "the isinstance(source, Node) / str front end with __correctInputNode (which makes every Node / id centre raise) — WOp.subGeo, subEdgesGeo in Model/GraphAStar.lean, on the objects of a world; "
                 "several Network objects holding the SAME Node objects — what sub_network returns (__sub_network_routing: sub_net.addEdge(e, e.source, e.target)) and what a caller "
@@ -977,7 +1042,8 @@ class P(Prop):
             "Random set/pop sequences on priority_dict alone (ties, lowered and raised priorities, pops on empty), comparing results and the _heap list position by position; "
             "random heapify/heappush/heappop sequences on lists of (priority, key) tuples with ties against Python's heapq, list compared position by position. "
             "Sessions: random sequences of 4-22 calls on ONE Network object with <= 6 nodes (addNode, addEdge interleaved with shortest_distance in pair/list form, run_routing_forward with "
-            "the flags read back, all_shortest_distances, prepare/prepared/has_prepared, save_prep+load_prep through a temporary file, sub_network followed by searches on the returned network that shares the Node objects; "
+            "the flags read back, all_shortest_distances, prepare/prepared/has_prepared, save_prep+load_prep through a temporary file, save_prep(name) and load_prep(name) separately on bare file names "
+            "('a', 'a.npy', 'npy', '.npy', 't.np', … in a directory of the object's own: files restored after further prepares and new edges, files never written, a save before any prepare), sub_network followed by searches on the returned network that shares the Node objects; "
             "cut-offs none/0/.5/1/2/3/5; ids, the network's Node objects or fresh equal Node objects as arguments; a caller's dictionary passed repeatedly as output_dict), every answer "
             "checked against Floyd-Warshall on the graph as built so far. "
             "Several (2-3) small networks alive at the same time with their calls interleaved. "
@@ -1152,7 +1218,8 @@ class P(Prop):
             return {"kind": "sess", "calls": "<=8" if len(ks) <= 8 else "9-16" if len(ks) <= 16 else "17+",
                     "edge_after_search": any(k == "e" for k in ks[first_q:]), "sub_network": "s" in ks,
                     "output_dict": any(o[0] in "rdl" and o[-2] == 1 or o[0] == "a" and o[2] == 1 for o in case["ops"]),
-                    "node_objects": any(o[0] in "rdlqhs" and o[-1] != 0 for o in case["ops"]), "ids": case.get("ids", "int")}
+                    "node_objects": any(o[0] in "rdlqhs" and o[-1] != 0 for o in case["ops"]), "ids": case.get("ids", "int"),
+                    "prep_files": "load" if "L" in ks else "save" if "S" in ks else "v" if "v" in ks else "-"}
         edges = nc.expand(case)
         ws = [nc.num(e[3]) for e in edges]
         pairs = [(min(e[1], e[2]), max(e[1], e[2])) for e in edges]
@@ -1259,8 +1326,11 @@ class P(Prop):
         res = []
         with nc.time_limit(10):
             run = SessRunner(self.mods, case.get("ids", "int") == "str")
-            for op in case["ops"]:
-                res += run.call(op)
+            try:
+                for op in case["ops"]:
+                    res += run.call(op)
+            finally:
+                run.close()
         return {"res": res}
 
     def impl_world(self, case):
@@ -1458,6 +1528,8 @@ class P(Prop):
                     toks.append("s,%d,%s" % (op[1], ct(op[2])))
                 elif k == "v":
                     toks.append("v")
+                elif k in ("S", "L"):
+                    toks.append("%s,%s" % (k, op[1]))
                 if (k in "rd" and op[4]) or (k == "l" and op[3]) or (k == "a" and op[2]):
                     toks.append("u")
             return ["C06.sess %d %s" % (case["n"], ";".join(toks) or "_")]
